@@ -287,7 +287,7 @@ pub fn run_check(property: &str, tier: &str) -> i32 {
             "frame_under_faults",
             json!({"deleting_requests_enumerated": fs.pairs, "faulted_executions": fs.executions, "faults_fired": fs.fired,
                    "by_libc_call": fs.fired_by_call, "by_errno": fs.fired_by_errno,
-                   "rule": "for sampled hostile histories the last deleting request is re-executed with every k-th file-system call failing (x EIO, EACCES, ENOSPC); whatever it returns, everything outside the layer must be untouched"}),
+                   "rule": "for sampled hostile histories the last deleting request is re-executed with every k-th file-system call failing (x EIO, EACCES, ENOSPC; the C12 enumeration adds ENOTDIR); whatever it returns, everything outside the layer must be untouched"}),
         );
     }
     ev.cov("design_ref", json!(c.design_ref));
